@@ -158,6 +158,46 @@ theorem C01_source_match_inputs (p : Pattern α ρ) (a : α) (withReporter : Boo
     | none => cases withReporter <;> simp [Option.bind, hf, miRun, Generated.matchInputsArms, miSelect, MIArm.applies, ofTry]
     | some b => cases b <;> cases withReporter <;> simp [Option.bind, hf, miRun, Generated.matchInputsArms, miSelect, MIArm.applies, ofTry]
 
+/-- how an outcome of the translated unordered selection reads in the model -/
+def agreesU (m : MethodInfo) (fm : FnMocker α ρ) (s : Shared α ρ) : Sel → EvalOutcome ρ → Prop
+  | .nothing, out => out = (match s.fallback with
+      | .error => .err (.noMatchingCallPatterns m)
+      | .unmock => .contUnmock)
+  | .patErr i, out => out = .err (.noMatcherFunction m i)
+  | .unwound _, out => out = .userPanic
+  | .selected i, out => ∃ p, fm.pats[i]? = some p ∧ out = (respond m i p.responders p.count).2
+  | .ill, _ => False
+
+/-- **C01, the translated source is the model's unordered branch.** For every state, unordered method and
+    argument: running the translated iterator chain over the translated `match_inputs` results gives the
+    outcome of the model's `evalCall` — the selected pattern's response, the fallback decision when nothing
+    matches, `NoMatcherFunction` at the failing index, or the user's own panic. -/
+theorem C01_source_unordered_is_model (s : Shared α ρ) (m : MethodInfo) (a : α) (fm : FnMocker α ρ)
+    (hf : s.find m.id = some fm) (hm : fm.mode = .anyOrder) :
+    agreesU m fm s (Generated.anySkel.run (fm.pats.map fun p => ofTry (tryPat p a))) (evalCall s m a).2 := by
+  rw [C01_source_scan_is_model_scan]
+  unfold evalCall
+  simp only [hf, hm]
+  cases hscan : scan fm.pats a 0 with
+  | none => cases hfb : s.fallback <;> simp [selOfScan, agreesU, hfb]
+  | some r =>
+    obtain ⟨i, t⟩ := r
+    cases t with
+    | noMatcher => simp [selOfScan, agreesU]
+    | userPanic => simp [selOfScan, agreesU]
+    | accept =>
+      obtain ⟨hi, _, _⟩ := (scan_some_iff fm.pats a i .accept).mp hscan
+      simp only [selOfScan, agreesU, List.getElem?_eq_getElem hi]
+      exact ⟨_, rfl, rfl⟩
+
+/-- **C01 / C02, source agreement (the match counter).** `CallCounter::fetch_add` is one `fetch_add(1, SeqCst)` and
+    `next_responder` selects by the value it returns — the number of matches *before* this call — which is what the
+    model's `evalCall` does: `respond … p.count`, then `count := p.count + 1`. -/
+theorem C01_source_count_bump (n : Nat) :
+    Generated.countBumpSkel.run n = some (n, n + 1) ∧ Generated.countBumpSkel.seqCst = true ∧
+    Generated.nextResponderByOldCount = true := by
+  refine ⟨rfl, rfl, rfl⟩
+
 /-- non-vacuity: second pattern selected; a matcher-less pattern before an accepting one is an error at ITS index -/
 example :
     Generated.anySkel.run [.f, .t, .t] = .selected 1 ∧ Generated.anySkel.run [.f, .e, .t] = .patErr 1 ∧
